@@ -35,6 +35,10 @@ _sym_beta = gens.sym3(0.5)
 # exponents of the length scale and of the energy-per-area scale (0 first: shrinks to the unscaled problem)
 _lk = st.sampled_from([0] * 12 + [-12, -11, -10, -10, -10, -9, -8, -7, -6, -5, -4, -3, -2, -1, 1, 2, 3, 4])
 _ej = st.sampled_from([0] * 11 + [-8, -7, -6, -5, -4, -3, -2, -1, 1, 2, 3, 4, 5, 6, 7, 8])
+# Cartesian shift vectors: generic, exactly structured, near a special case (see surfaces)
+_shape = st.sampled_from(['gen'] * 4 + ['sym'] * 3 + ['near'] * 3)
+_near_k = st.integers(3, 12)
+_sign = st.sampled_from([1.0, -1.0])
 # solve: the minimisers of scipy.optimize take trial steps of absolute size 1 (Powell's line search bracket, the initial
 # simplex of Nelder-Mead), i.e. 10^-k Burgers vectors - GammaSurface wraps a fractional coordinate by subtracting 1 in a
 # loop, so that cells of numerically small size make one energy evaluation take hours (speed is not part of the property);
@@ -94,21 +98,42 @@ def table(seed, n1, n2, kind, scale):
 def surfaces(draw, small=False):
     kind = draw(_boxkind)
     rot = draw(_rot) if draw(_bool) else None
+    shape = 'gen'
     if kind == 'none':
         bx = None
         th = math.radians(draw(_theta))
         l1, l2 = draw(_len), draw(_len)
         if not (l1 / l2 <= 5.0 and l2 / l1 <= 5.0):
             l2 = l1
+        # shape of the pair: generic | exactly structured ('sym': signed axis directions s1*l1*e_i, s2*l2*e_j, no rotation -
+        # the inputs an "already in normal form" shortcut would take) | near a special case ('near': the angle 10^-k degrees
+        # off a right angle and / or the lengths 10^-k (relative) off equality, k = 3..12; never rounded)
+        shape = draw(_shape)
+        nk = [draw(_near_k), draw(_near_k), draw(_bool), draw(_bool), draw(st.integers(0, 2))]
+        sg = [draw(_sign), draw(_sign)]
+        if shape == 'sym':
+            th = math.radians(90.0)
+            rot = None
+        elif shape == 'near':
+            if nk[4] != 1:
+                th = math.radians(90.0 + (1.0 if nk[2] else -1.0) * 10.0 ** (-nk[0]))
+            if nk[4] != 0:
+                l2 = l1 * (1.0 + (1.0 if nk[3] else -1.0) * 10.0 ** (-nk[1]))
         A1 = np.array([l1, 0.0, 0.0])
         A2 = np.array([l2 * math.cos(th), l2 * math.sin(th), 0.0])
+        if shape == 'sym':
+            A1, A2 = np.array([sg[0] * l1, 0.0, 0.0]), np.array([0.0, sg[1] * l2, 0.0])
         P = draw(st.sampled_from([[0, 1, 2], [2, 0, 1], [1, 2, 0], [0, 2, 1]]))      # which Cartesian plane
         A1, A2 = A1[P], A2[P]
         if rot:
             R = gens.rotation_matrix(*rot)
             A1, A2 = R @ A1, R @ A2
-        a1 = [round(float(t), 6) for t in A1]
-        a2 = [round(float(t), 6) for t in A2]
+        if shape == 'near':
+            a1 = [float(t) for t in A1]
+            a2 = [float(t) for t in A2]
+        else:
+            a1 = [round(float(t), 6) + 0.0 for t in A1]
+            a2 = [round(float(t), 6) + 0.0 for t in A2]
         a1v, a2v = a1, a2
     else:
         fam = kind if kind != 'any' else None
@@ -141,7 +166,7 @@ def surfaces(draw, small=False):
     D = table(draw(_seed), n1, n2, 'fourier', 0.3) if draw(_bool) else None
     return {'box': bx, 'a1vect': a1v, 'a2vect': a2v, 'a1v3': a1, 'a2v3': a2, 'n1': n1, 'n2': n2,
             'dup': draw(_bool), 'shuffle': draw(_seed) if draw(_bool) else None, 'kind': knd, 'E': E, 'D': D,
-            'lk': draw(_lk), 'ej': draw(_ej)}
+            'lk': draw(_lk), 'ej': draw(_ej), 'shape': shape}
 
 
 _coord = st.one_of(gens.nice(-3.0, 3.0, 4), gens.nice(0.0, 1.0, 4))
@@ -185,6 +210,113 @@ def query_history(draw):
     return {'seq': seq, 'surf2': s2}
 
 
+# ---- near-threshold and exactly structured query coordinates: a special value of the fractional coordinate (an integer
+# line, a sample i/n, the mid-line (i+1/2)/n between two samples where the nearest mode switches, the ends +-1/(2n) and
+# 1-1/(2n) of the zone in which the smooth mode blends across the cell edge, a half-integer) exactly ('exact') or 10^-k
+# beside it, k = 3..12 (the oracles exempt a band of 1e-9 .. 1e-7 around the lines where the answer is discontinuous)
+_base_kind = st.sampled_from(['int', 'sample', 'mid', 'blend', 'half'])
+_near_eps = st.sampled_from([0, 0, 3, 4, 5, 6, 6, 7, 8, 9, 10, 11, 12])
+
+
+def special_coord(kind, i, n, k, sign):
+    if kind == 'int':
+        b = float(i % 7 - 3)
+    elif kind == 'sample':
+        b = float(i % 7 - 3) + (i % n) / n
+    elif kind == 'mid':
+        b = float(i % 5 - 2) + ((i % n) + 0.5) / n
+    elif kind == 'blend':
+        b = float(i % 5 - 2) + (0.5 / n, -0.5 / n, 1.0 - 0.5 / n)[i % 3]
+    else:
+        b = (i % 13 - 6) / 2.0
+    return b + (sign * 10.0 ** (-k) if k else 0.0)
+
+
+@st.composite
+def special_queries(draw, n1, n2, n=None):
+    n = draw(_npts) if n is None else n
+    out = []
+    for _ in range(n):
+        out.append([special_coord(draw(_base_kind), draw(_seed), n1, draw(_near_eps), draw(_sign)),
+                    special_coord(draw(_base_kind), draw(_seed), n2, draw(_near_eps), draw(_sign))])
+    return out
+
+
+_qkind = st.sampled_from(['plain', 'plain', 'plain', 'special', 'special'])
+
+
+@functools.lru_cache(maxsize=None)
+def _special(n1, n2, n=None):
+    return special_queries(n1, n2, n)
+
+
+# ---- working-unit configurations (atomman.unitconvert.reset_units sets PROCESS-GLOBAL working units).  A configuration is
+#     {'kind': 'named', 'units': {...}} | {'kind': 'seed', 'seed': n} | {'kind': 'SI'};  a unit plan of a case is None (the
+# process is left in the default units angstrom / amu / eV / e) or {'pre': bool, 'W': cfg}: the case is judged under W - the
+# PHYSICAL system (angstrom, eV/angstrom^2 numbers times the 10^k scales) expressed in the working units by my own products
+# of numericalunits attributes - after, when pre is set, the same case was run and judged under the default units in the
+# same process (anything remembered from the first use of a unit shows).  Named choices always contain a length unit and
+# never all of length + mass + time + energy (what reset_units does with the other combinations is C09's subject).
+DEFAULT_UNITS = {'length': 'angstrom', 'mass': 'amu', 'energy': 'eV', 'charge': 'e'}
+_NAMED = {'length': ['nm', 'nm', 'pm', 'm', 'cm', 'um', 'angstrom'], 'mass': ['kg', 'g', 'amu'],
+          'time': ['ns', 'ps', 'fs', 's'], 'energy': ['J', 'eV', 'mJ'], 'charge': ['C', 'e']}
+_SUBSETS = [('length',), ('length', 'time'), ('length', 'mass'), ('length', 'energy'), ('length', 'energy'), ('length', 'charge'),
+            ('length', 'mass', 'time'), ('length', 'mass', 'energy'), ('length', 'time', 'energy'),
+            ('length', 'mass', 'time', 'charge'), ('length', 'mass', 'energy', 'charge'), ('length', 'time', 'energy', 'charge')]
+_S_SUBSET = st.sampled_from(_SUBSETS)
+_S_Q = {q: st.sampled_from(v) for q, v in _NAMED.items()}
+_S_KIND = st.sampled_from(['named', 'named', 'named', 'named', 'seed', 'seed', 'SI'])
+_QS = ('length', 'mass', 'time', 'energy', 'charge')
+_plan_on = st.sampled_from([False, False, True, False])
+
+
+@st.composite
+def unit_plans(draw, share=None):
+    """None (three quarters of the cases) or a plan; always the same number of draws"""
+    on, kind, sub, seed, pre = draw(_plan_on), draw(_S_KIND), draw(_S_SUBSET), draw(_seed), draw(_bool)
+    picks = {q: draw(_S_Q[q]) for q in _QS}
+    if not on:
+        return None
+    if kind == 'named':
+        W = {'kind': 'named', 'units': {q: picks[q] for q in sub}}
+        if W['units'] == {'length': 'angstrom'}:
+            W['units'] = {'length': 'nm'}
+    elif kind == 'seed':
+        W = {'kind': 'seed', 'seed': seed}
+    else:
+        W = {'kind': 'SI'}
+    return {'pre': pre, 'W': W}
+
+
+S_PLAN = unit_plans()
+
+
+def apply_units(uc, cfg):
+    if cfg['kind'] == 'named':
+        uc.reset_units(**cfg['units'])
+    elif cfg['kind'] == 'seed':
+        uc.reset_units(seed=int(cfg['seed']))
+    else:
+        uc.reset_units(seed='SI')
+
+
+def restore_units(uc):
+    uc.reset_units(length='angstrom', mass='amu', energy='eV', charge='e')
+
+
+# ---- storage / input dtypes ('nd:<dtype>': the values as an ndarray of that dtype when every value is exactly
+# representable in it, otherwise widened f2 -> f4 -> f8, i1 -> i2 -> i4 -> i8, u1 -> u2 -> u4 -> i8; 'fortran': Fortran-ordered
+# 2-D array / reversed-stride 1-D view).  The generators make the values representable (whole numbers, multiples of 1/8).
+NARROW = ('nd:f4', 'nd:f2', 'nd:i1', 'nd:i2', 'nd:u1', 'nd:u2', 'nd:>f8', 'nd:>i4', 'fortran')
+
+
+INT_NARROW = ('nd:i1', 'nd:i2', 'nd:u1', 'nd:u2', 'nd:>i4')
+
+
+def is_narrow(f):
+    return isinstance(f, str) and (f.startswith('nd:') or f == 'fortran')
+
+
 @st.composite
 def interp_cases(draw):
     return {'surf': draw(surfaces()), 'aslist': draw(_bool), 'probe': draw(st.integers(0, 10 ** 6)),
@@ -193,26 +325,62 @@ def interp_cases(draw):
 
 @st.composite
 def periodic_cases(draw):
-    q = draw(queries())
-    return {'surf': draw(surfaces()), 'q': q, 'k': [[draw(_kint), draw(_kint)] for _ in q],
-            'scalar': draw(_bool), 'aslist': draw(_bool), 'modes': draw(_modes)}
+    s = draw(surfaces())
+    qk = draw(_qkind)
+    q = draw(queries()) if qk == 'plain' else draw(_special(s['n1'], s['n2']))
+    return {'surf': s, 'q': q, 'k': [[draw(_kint), draw(_kint)] for _ in q],
+            'scalar': draw(_bool), 'aslist': draw(_bool), 'modes': draw(_modes), 'qkind': qk}
 
 
 _pq = st.integers(-2, 2)
 # form in which coordinates / positions / vectors are handed to the conversion methods: 'plain' = float ndarray or list
 # (field 'aslist'), read-only ndarray, non-contiguous view, nested tuple, numpy scalars for single values, integer-typed
 # (whole-number fractional and plotting coordinates, whole-number crystal vectors)
-_cform = st.sampled_from(['plain', 'plain', 'plain', 'ro', 'strided', 'tuple', 'npscalar', 'int'])
+_cform = st.sampled_from(['plain', 'plain', 'plain', 'ro', 'strided', 'tuple', 'npscalar', 'int', 'narrow', 'narrow'])
+_narrow = st.sampled_from(NARROW)
+# Cartesian positions / the plotting axis a relative 10^-k OUT of the fault plane (None: exactly in plane as computed):
+# far inside the tolerances of the in-plane tests (1e-6 and 1e-8 relative), so the answers move by no more than that
+_off_k = st.sampled_from([None, None, None, 9, 10, 11, 12, 13])
+_eighth = st.integers(-24, 24)
+
+
+def dyadic_surface(s):
+    """Cartesian shift vectors rounded to multiples of 1/4 (positions of dyadic fractional coordinates are then exactly
+    representable in float32): only without a box, only when the pair stays well conditioned"""
+    if s['box'] is not None:
+        return s
+    a1 = [round(t * 4.0) / 4.0 + 0.0 for t in s['a1vect']]
+    a2 = [round(t * 4.0) / 4.0 + 0.0 for t in s['a2vect']]
+    if not _well_conditioned(np.array(a1), np.array(a2)):
+        return s
+    return dict(s, a1vect=a1, a2vect=a2, a1v3=a1, a2v3=a2, shape='gen' if s.get('shape') == 'near' else s.get('shape'))
 
 
 @st.composite
 def coords_cases(draw):
     s = draw(surfaces())
-    q = draw(queries())
+    qk = draw(_qkind)
+    q = draw(queries()) if qk == 'plain' else draw(_special(s['n1'], s['n2']))
     form = draw(_cform)
+    nd = draw(_narrow)
+    q8 = [[draw(_eighth), draw(_eighth)] for _ in q]
+    off = {'pos': draw(_off_k), 'xvect': draw(_off_k), 'sign': draw(_sign)}
+    plan = draw(S_PLAN)
     if form == 'int':
         q = [[float(round(a)), float(round(b))] for a, b in q]
         s = dict(s, lk=int_scale(s['lk']))            # whole-number plotting coordinates / Cartesian vectors
+    elif form == 'narrow':
+        # storage dtypes: fractional coordinates in eighths (|q| <= 3), dyadic Cartesian vectors, a whole-number length scale
+        form = nd
+        q = [[a / 8.0, b / 8.0] for a, b in q8]
+        if nd in INT_NARROW:
+            # whole coordinates up to the limits of the dtype (capped at 2000: GammaSurface wraps by subtracting 1 in a loop)
+            lim = {'nd:i1': (-128, 127), 'nd:u1': (0, 255), 'nd:i2': (-2000, 2000), 'nd:u2': (0, 2000), 'nd:>i4': (-2000, 2000)}[nd]
+            pick = lambda t: float((lim[0], lim[1], t % 7 - 3 if lim[0] < 0 else t % 4, lim[1] - 1)[abs(t) % 4])
+            q = [[pick(a), pick(b)] for a, b in q8]
+        qk = 'plain'
+        s = dyadic_surface(dict(s, lk=max(0, int_scale(s['lk']))))
+        off = {'pos': None, 'xvect': None, 'sign': 1.0}
     # an in-plane plotting x axis p*A1 + q*A2 (None = default), alternative in-plane shift vectors (integer combinations)
     xv = None
     if draw(_bool):
@@ -232,8 +400,10 @@ def coords_cases(draw):
     hist = draw(query_history())
     if form == 'int' and hist and hist['surf2']:
         hist['surf2'] = dict(hist['surf2'], lk=int_scale(hist['surf2']['lk']))
+    if is_narrow(form) and hist and hist['surf2']:
+        hist['surf2'] = dyadic_surface(dict(hist['surf2'], lk=max(0, int_scale(hist['surf2']['lk']))))
     return {'surf': s, 'q': q, 'scalar': draw(_bool), 'aslist': draw(_bool), 'xv': xv, 'alt': alt,
-            'smooth': draw(_bool), 'hist': hist, 'form': form, 'xvc': xvc,
+            'smooth': draw(_bool), 'hist': hist, 'form': form, 'xvc': xvc, 'qkind': qk, 'off': off, 'units': plan,
             # whole-number alternative crystal vectors are handed over integer-typed ([1, 1, 0] as one types them)
             'altint': draw(_bool)}
 
@@ -245,12 +415,34 @@ def model_cases(draw):
             'lunit': draw(st.sampled_from([None, 'angstrom', 'nm'])),
             'via': draw(st.sampled_from(['str', 'dm', 'file'])),
             # load into an object that already holds (and has answered queries on) other data
-            'into': draw(_small_surfaces) if draw(_bool) else None}
+            'into': draw(_small_surfaces) if draw(_bool) else None, 'units': draw(S_PLAN)}
 
 
 # ----------------------------------------------------------------------------- Peierls-Nabarro
 
 _frames = st.sampled_from([['x', 'y'], ['x', 'y'], ['z', 'x'], ['y', 'z'], ['x', 'z'], ['vec', 'vec']])
+_sperm = st.integers(0, 23)
+
+
+def signed_permutation(k):
+    """the k-th (0..23) proper rotation that maps the axes onto signed axes"""
+    import itertools
+    mats = []
+    for p in itertools.permutations(range(3)):
+        for sg in itertools.product((1.0, -1.0), repeat=3):
+            M = np.zeros((3, 3))
+            for i in range(3):
+                M[i, p[i]] = sg[i]
+            if np.linalg.det(M) > 0:
+                mats.append(M)
+    return mats[int(k) % 24]
+
+
+def rotation_of(r):
+    """rotation matrix of a frame / crystal-rotation description: [axis, angle] or {'sperm': k}"""
+    if isinstance(r, dict):
+        return signed_permutation(r['sperm'])
+    return gens.rotation_matrix(*r)
 _b = gens.nice(2.0, 4.0, 3)
 _phi = st.one_of(st.sampled_from([0.0, 90.0]), gens.nice(-180.0, 180.0, 1))
 _kkind = st.sampled_from(['hand', 'hand', 'iso', 'stroh'])
@@ -273,6 +465,13 @@ def pn_systems(draw, nmax=401, real_ok=True):
     frame = draw(_frames)
     rotf = draw(_rot) if frame[0] == 'vec' else None
     T = draw(_rot) if draw(_bool) else None
+    # exactly structured frames (a fifth of the cases): m, n given as VECTORS that are signed axis directions (m = -y,
+    # n = x ...), the crystal rotation a signed permutation of the axes - what a "frame is already aligned" shortcut takes
+    sp = [draw(_sperm), draw(_sperm), draw(st.integers(0, 4))]
+    if sp[2] == 0:
+        frame, rotf = ['vec', 'vec'], {'sperm': sp[0]}
+        if T is not None:
+            T = {'sperm': sp[1]}
     kk = draw(_kkind) if real_ok else 'hand'
     if kk == 'hand':
         # symmetric positive definite: Q diag(e) Q^T
@@ -300,6 +499,16 @@ def pn_systems(draw, nmax=401, real_ok=True):
 # need whole numbers: 'xint' = grid x0 + i*dx of whole angstroms, 'round' = disregistry rounded to whole angstroms (a
 # staircase from 0 to about b, the kind of guess one types by hand).
 _aform = st.sampled_from(['arr', 'arr', 'arr', 'list', 'tuple', 'ro', 'strided', 'int', 'int', 'intlist'])
+# storage dtypes of x / the disregistry (a sixth of the profiles: both in a drawn narrow dtype, or one of them): whole-angstrom
+# grids and staircase disregistries, as for the integer forms
+_nform = st.sampled_from(NARROW)
+_nwhich = st.sampled_from([None] * 10 + ['both', 'both', 'x', 'd'])
+# disregistry kinds: 'arctan' (plus perturbations) | 'decades': rows growing geometrically over 9 decades (each density row
+# is judged relative to its own magnitude)
+_pkind = st.sampled_from(['arctan'] * 7 + ['decades'])
+# a tiny out-of-plane disregistry component 10^-k b (k = 11..15; at most 1e-10 working units): far inside the tolerance of
+# the "y component not supported" test, the energies move by no more than that
+_dy_k = st.sampled_from([None, None, None, 11, 12, 13, 15])
 
 
 @st.composite
@@ -307,11 +516,20 @@ def pn_profiles(draw, nmin=7, nmax=401):
     n = draw(_npn)
     n = max(nmin, min(nmax, n))
     fx, fd = draw(_aform), draw(_aform)
-    xint = {'x0': draw(st.integers(-9, 4)), 'dx': draw(st.sampled_from([1, 1, 2]))} if fx in ('int', 'intlist') else None
+    nw, nf1, nf2 = draw(_nwhich), draw(_nform), draw(_nform)
+    if nw in ('both', 'x'):
+        fx = nf1
+    if nw in ('both', 'd'):
+        fd = nf2 if nw == 'd' or draw(_bool) else nf1
+    whole_x = fx in ('int', 'intlist') or is_narrow(fx)
+    xint = {'x0': draw(st.integers(-9, 4)), 'dx': draw(st.sampled_from([1, 1, 2]))} if whole_x else None
+    if xint and fx in ('nd:u1', 'nd:u2'):
+        xint['x0'] = abs(xint['x0'])
     return {'N': n, 'kstep': draw(_kstep), 'x0': draw(st.sampled_from([None, None, 0.0, 3.7, -11.25])),
             'w': draw(_w), 'center': draw(gens.nice(-2.0, 2.0, 2)),
             'pert': [[draw(_amp), draw(st.integers(1, 4))], [draw(_amp), draw(st.integers(1, 4))]],
-            'ramp': [draw(_amp), draw(_amp)], 'fx': fx, 'fd': fd, 'xint': xint, 'round': fd in ('int', 'intlist')}
+            'ramp': [draw(_amp), draw(_amp)], 'fx': fx, 'fd': fd, 'xint': xint,
+            'round': fd in ('int', 'intlist') or is_narrow(fd), 'kind': draw(_pkind), 'dy': draw(_dy_k)}
 
 
 @st.composite
@@ -329,7 +547,7 @@ def pn_settings(draw):
             'tbform': draw(st.sampled_from(['arr', 'arr', 'list', 'tuple', 'ro', 'strided']))}
 
 
-_INTFORMS = ('int', 'intlist')
+_INTFORMS = ('int', 'intlist') + NARROW
 
 
 def _uses_int(pr):
@@ -351,7 +569,7 @@ def pn_cases(draw, nmax=401):
                           'shiftc': [draw(gens.nice(-10.0, 10.0, 3)), draw(gens.nice(-10.0, 10.0, 3))],
                           's': draw(st.sampled_from([2.0, -1.0, 0.5, 3.0])),
                           # lists / tuples go to the energy methods as ARGUMENTS in these cases only (everywhere through the setters)
-                          'listargs': draw(st.integers(0, 4)) == 0})
+                          'listargs': draw(st.integers(0, 4)) == 0, 'units': draw(S_PLAN)})
 
 
 # ---- object history of an SDVPN: further evaluations on the same object
@@ -397,7 +615,9 @@ _pre_grid = st.sampled_from(['spacing', 'spacing', 'spacing', 'length', 'same', 
 @st.composite
 def solve_cases(draw):
     c = draw(pn_cases(nmax=21))
+    c['units'] = None          # (speed, see _lk_solve: the working-unit configurations are covered by pn_terms / pn_total)
     c['prof']['N'] = draw(st.integers(5, 21))
+    c['prof']['kind'], c['prof']['dy'] = 'arctan', None
     if c['prof']['xint']:
         # a whole-angstrom grid for the solve keeps the spacing at b/4 (coarser grids let the line searches run away):
         # 4 angstrom Burgers vector, 1 angstrom spacing
@@ -439,7 +659,7 @@ def solve_cases(draw):
     # the settings reach the object through the constructor, the attribute setters or solve's keyword arguments
     c['hist'] = None
     if draw(st.integers(0, 2)) > 0:
-        c['hist'] = {'grid': draw(_pre_grid), 'prof': draw(_profiles(21)), 'stored_first': draw(st.integers(0, 2)) > 0,
+        c['hist'] = {'grid': draw(_pre_grid), 'prof': dict(draw(_profiles(21)), kind='arctan', dy=None), 'stored_first': draw(st.integers(0, 2)) > 0,
                      'post': draw(_bool), 'settings_via': draw(st.sampled_from(['ctor', 'setters', 'solve_kw']))}
     c['sys']['lk'] = draw(_lk_solve)
     if se['cdiffelastic']:
@@ -461,7 +681,8 @@ def halfwidth_cases(draw):
             'cdiffelastic': draw(_bool), 'lk': draw(_lk), 'ej': draw(_ej)}
 
 
-_xmode = st.sampled_from(['x', 'xmax+xstep', 'xmax+xnum', 'xstep+xnum', 'all3'])
+_xmode = st.sampled_from(['x', 'x', 'xmax+xstep', 'xmax+xnum', 'xstep+xnum', 'all3'])
+_xform = st.sampled_from(['arr', 'arr', 'arr', 'list', 'tuple', 'ro', 'strided', 'int', 'intlist', 'narrow', 'narrow'])
 
 
 @st.composite
@@ -472,6 +693,137 @@ def arctan_cases(draw):
     bv = [draw(gens.nice(-4.0, 4.0, 3)) for _ in range(3)]
     if not any(bv):
         bv = [1.0, 0.0, 0.0]
-    return {'n': n, 'step': step, 'xmode': draw(_xmode), 'x0': draw(gens.nice(-5.0, 5.0, 2)),
-            'bkind': bk, 'b': bv, 'bmag': draw(_b), 'center': draw(st.one_of(st.just(0.0), gens.nice(-3.0, 3.0, 2))),
-            'w': draw(_w), 'normalize': draw(_bool), 'shift': draw(_bool), 'aslist': draw(_bool), 'lk': draw(_lk)}
+    c = {'n': n, 'step': step, 'xmode': draw(_xmode), 'x0': draw(gens.nice(-5.0, 5.0, 2)),
+         'bkind': bk, 'b': bv, 'bmag': draw(_b), 'center': draw(st.one_of(st.just(0.0), gens.nice(-3.0, 3.0, 2))),
+         'w': draw(_w), 'normalize': draw(_bool), 'shift': draw(_bool), 'aslist': draw(_bool), 'lk': draw(_lk)}
+    # form of an explicitly given x (mode 'x'): float ndarray, list, tuple, read-only, non-contiguous, integer-typed, storage
+    # dtypes (the grid is then x0/4 + i*step with step a multiple of 1/8: exactly representable)
+    c['xform'] = draw(_xform)
+    if c['xform'] == 'narrow':
+        c['xform'] = draw(_nform)
+    else:
+        draw(_nform)
+    if c['xform'] in ('int', 'intlist') or is_narrow(c['xform']):
+        whole = c['xform'] in ('int', 'intlist', 'nd:i1', 'nd:i2', 'nd:u1', 'nd:u2', 'nd:>i4')
+        c['step'] = float(draw(st.integers(1, 16))) / (1.0 if whole else 8.0)
+        c['x0'] = float(round(c['x0']))
+        if c['xform'] in ('nd:u1', 'nd:u2'):
+            c['x0'] = abs(c['x0'])
+        c['lk'] = max(0, int_scale(c['lk']))
+    # many decades in one call (mode 'x' only): x = center + s * halfwidth * 10^e, e from -6 to +6, both signs
+    c['xdec'] = draw(_seed) if draw(st.integers(0, 5)) == 0 else None
+    # xmax a relative 10^-k off xstep (xnum - 1) / 2 (k = 7..12: far inside the tolerance of the compatibility test)
+    c['xnear'] = draw(st.sampled_from([None, None, None, 7, 8, 10, 12]))
+    c['xnear_sign'] = draw(_sign)
+    c['units'] = draw(S_PLAN)
+    return c
+
+
+# ----------------------------------------------------------------------------- many decades in one call (clause decades)
+_mant = gens.nice(1.0, 9.99, 3)
+_dec_lo = st.integers(-9, -7)
+_dec_hi = st.integers(0, 2)
+_dec_mid = st.integers(-7, 0)
+_nrows = st.integers(8, 12)
+
+
+@st.composite
+def decades_cases(draw):
+    """a surface and ONE array of query points whose rows span 8-11 orders of magnitude (|a1|, |a2| from 1e-9 to 1e2 cells;
+    larger coordinates would only measure how long GammaSurface takes to wrap them, one subtraction of 1.0 at a time)"""
+    s = draw(surfaces(small=True))
+    n = draw(_nrows)
+    ex = [draw(_dec_lo), draw(_dec_hi)] + [draw(_dec_mid) for _ in range(n - 2)]
+    order = draw(st.permutations(list(range(n))))
+    q = []
+    for i in order:
+        e = ex[i]
+        # both coordinates of a row have the magnitude of the row (the row is judged relative to it)
+        q.append([draw(_sign) * draw(_mant) * 10.0 ** e, draw(_sign) * draw(_mant) * 10.0 ** e])
+    xv = None
+    if draw(_bool):
+        xv = [draw(_pq), draw(_pq)]
+        if xv == [0, 0]:
+            xv = [1, 1]
+    return {'surf': s, 'q': q, 'xv': xv, 'smooth': draw(_bool), 'form': draw(st.sampled_from(['arr', 'arr', 'list', 'ro', 'strided', 'fortran']))}
+
+
+# ----------------------------------------------------------------------------- result ledger and caller-side mutation
+# form in which the caller holds the arrays it hands to GammaSurface(...) / set(...): float64 ndarray (twice: the only form
+# np.asarray does not copy), non-contiguous view, reversed-stride / Fortran, read-only, list, tuple, storage dtypes
+_held_form = st.sampled_from(['arr', 'arr', 'arr', 'strided', 'fortran', 'ro', 'list', 'tuple', 'nd:f4', 'nd:>f8', 'nd:i2'])
+_gop = st.sampled_from(['call_same', 'call_other', 'build_other', 'reload_other', 'overwrite_in', 'overwrite_in', 'overwrite_in',
+                        'box', 'box', 'overwrite_out', 'overwrite_query'])
+_box_how = st.sampled_from(['vects', 'set_vectors', 'set_abc', 'set_lengths', 'origin'])
+_in_which = st.sampled_from(['a1vect', 'a2vect', 'a1vect', 'a2vect', 'a1', 'a2', 'E_gsf', 'delta'])
+_fac = st.sampled_from([2.0, -1.0, 0.5, 3.0])
+
+
+@st.composite
+def ledger_cases(draw):
+    """two surfaces built from arrays / a Box that the caller keeps, queries whose results are kept in a ledger, and 2-6
+    operations: more calls on the same / the other object, another object built from the re-used arrays, the other object
+    reloaded, the caller's input arrays overwritten in place, the caller's Box re-defined through its setters, the returned
+    arrays and the query arrays overwritten"""
+    s = draw(surfaces(small=True))
+    s2 = draw(_small_surfaces)
+    forms = {k: draw(_held_form) for k in ('a1vect', 'a2vect', 'a1', 'a2', 'E_gsf', 'delta')}
+    nops = draw(st.integers(2, 6))
+    ops = []
+    for _ in range(nops):
+        ops.append({'op': draw(_gop), 'which': draw(_in_which), 'how': draw(_box_how), 'f': draw(_fac),
+                    'q': draw(queries(3)), 'smooth': draw(_bool), 'route': draw(_route)})
+    return {'surf': s, 'surf2': s2, 'forms': forms, 'q': draw(queries(3)), 'ops': ops, 'via_set': draw(_bool),
+            'share_box': draw(_bool), 'order': draw(_seed)}
+
+
+_pop = st.sampled_from(['eval_same', 'eval_other_obj', 'solve_other_obj', 'overwrite_in', 'overwrite_in', 'overwrite_in', 'overwrite_out',
+                        'overwrite_out', 'setters_other_obj', 'overwrite_args'])
+_pn_which = st.sampled_from(['x', 'disregistry', 'x', 'disregistry', 'tau', 'beta'])
+_pn_held = st.sampled_from(['arr', 'arr', 'arr', 'strided', 'ro', 'list', 'nd:>f8', 'fortran'])
+
+
+@st.composite
+def ledger_pn_cases(draw):
+    """an SDVPN whose x / disregistry / tau / beta arrays the caller keeps, a second SDVPN on the same gamma surface,
+    evaluations kept in a ledger and 2-6 operations (see ledger_cases)"""
+    c = draw(pn_cases(nmax=40))
+    c['units'] = None
+    c['prof'] = dict(c['prof'], fx='arr', fd='arr', xint=None, round=False, kind='arctan', dy=None, N=min(c['prof']['N'], 40))
+    c['sys'] = dict(c['sys'], lk=draw(_lk_solve))
+    c['listargs'] = False
+    c['held'] = {k: draw(_pn_held) for k in ('x', 'disregistry', 'tau', 'beta')}
+    c['stored'] = draw(_bool)
+    ops = []
+    for _ in range(draw(st.integers(2, 6))):
+        ops.append({'op': draw(_pop), 'which': draw(_pn_which), 'f': draw(_fac), 'prof': dict(draw(_profiles(40)), fx='arr', fd='arr', xint=None, round=False, kind='arctan', dy=None),
+                    'cdiff': draw(_bool)})
+    c['ops'] = ops
+    c['prof2'] = dict(draw(_profiles(21)), fx='arr', fd='arr', xint=None, round=False, kind='arctan', dy=None)
+    return c
+
+
+# ----------------------------------------------------------------------------- enumerated option combinations (clause pn_options)
+FLAGS = ('fullstress', 'cdiffelastic', 'cdiffsurface', 'cdiffstress')
+
+
+def option_cases(tier):
+    """every combination of the four finite-difference / stress flags, reached in every way: given to the constructor; from
+    every OTHER combination through the attribute setters, the changed flags set in every order (the intermediate
+    combinations are evaluated too); through solve()'s keywords.  One case = one starting combination + one target
+    combination + one order of the setters; a few fixed systems (more in the thorough tier)"""
+    import itertools
+    combos = list(itertools.product((False, True), repeat=4))
+    nsys = 1 if tier == 'quick' else 4
+    cases = []
+    for k in range(nsys):
+        for a in combos:
+            cases.append({'sys': k, 'start': list(a), 'target': list(a), 'order': [], 'via': 'ctor'})
+            for b in combos:
+                changed = [i for i in range(4) if a[i] != b[i]]
+                if not changed:
+                    continue
+                for order in itertools.permutations(changed):
+                    cases.append({'sys': k, 'start': list(a), 'target': list(b), 'order': list(order), 'via': 'setters'})
+                cases.append({'sys': k, 'start': list(a), 'target': list(b), 'order': changed, 'via': 'solve_kw'})
+    return cases
